@@ -10,8 +10,8 @@ pub enum Tier {
 }
 
 /// Hostile alphabet A (DESIGN §4)
-pub const ALPHABET: [char; 15] = [
-    ' ', '\t', '\u{00A0}', '\u{2003}', '\u{200B}', 'a', 'A', 'ß', 'İ', 'ﬁ', 'ΐ', 'Σ', 'ς', '\u{0301}', '𝒳',
+pub const ALPHABET: [char; 17] = [
+    ' ', '\t', '\n', '\r', '\u{00A0}', '\u{2003}', '\u{200B}', 'a', 'A', 'ß', 'İ', 'ﬁ', 'ΐ', 'Σ', 'ς', '\u{0301}', '𝒳',
 ];
 
 /// 40-char case/space set for pair enumeration (thorough)
@@ -387,6 +387,32 @@ pub fn string_domain(spec: &Spec, tier: Tier, rng: &mut Rng) -> Vec<Value> {
             }
         }
     }
+    // heavily padded inputs: raw length far beyond any length bound, sanitized length within it
+    {
+        let mut maxes: Vec<usize> = spec.vals.iter().filter_map(|v| if let Val::LenMax(n) = v { Some(*n as usize) } else { None }).collect();
+        maxes.push(3);
+        for n in maxes {
+            if n > 2000 {
+                continue;
+            }
+            for core in ["", "a", "ß", "ab"] {
+                for pad in [' ', '\t', '\u{2003}', '\n'] {
+                    let padding: String = std::iter::repeat(pad).take(4 * n + 9).collect();
+                    out.push(format!("{padding}{core}{padding}"));
+                    out.push(format!("{padding}{core}"));
+                    out.push(format!("{core}{padding}"));
+                    let fill: String = std::iter::repeat('a').take(n.min(64)).collect();
+                    out.push(format!("{padding}{fill}{padding}"));
+                }
+            }
+        }
+    }
+    // declaration-specific probe strings chosen by the generator (e.g. strings that match / do not match a regex literal)
+    for t in &spec.tags {
+        if let Some(p) = t.strip_prefix("probe=") {
+            out.push(p.to_string());
+        }
+    }
     out.push("a".repeat(10_000));
     for s in ["Hello World", "  Bob ", "user@example.com", "USER@EXAMPLE.COM ", "abc123", "ABC", "ǅemal", "İstanbul", "STRASSE", "straße", "ΟΔΟΣ", "οδος", "ὈΔΥΣΣΕΎΣ", "a\u{0301}", "\u{FEFF}x"] {
         out.push(s.to_string());
@@ -468,6 +494,20 @@ pub fn domain(spec: &Spec, tier: Tier, seed: u64) -> Vec<Value> {
     // generic / other declarations reuse the scalar domains according to their carrier
     match spec.tag_value("carrier") {
         Some("list") | Some("point") => return list_domain(spec, tier, &mut rng),
+        Some("flist") => {
+            // vectors of f64 bit patterns incl. NaN, signed zeros, infinities
+            let atoms: Vec<i64> = [0.0f64, -0.0, 1.5, -1.5, f64::NAN, f64::INFINITY, 1e300].iter().map(|x| x.to_bits() as i64).collect();
+            let mut out = vec![Value::List(vec![])];
+            for a in &atoms {
+                out.push(Value::List(vec![*a]));
+                for b in &atoms {
+                    out.push(Value::List(vec![*a, *b]));
+                }
+            }
+            out.sort();
+            out.dedup();
+            return out;
+        }
         Some("str") => return string_domain(spec, tier, &mut rng),
         Some("i32") => {
             let mut s2 = spec.clone();
